@@ -35,7 +35,7 @@ T = {
  "C13-a": ("mask check takes an IPv4 fast path on the low 32 bits", "C13.check_mask (DFCC-enforced contract); native replay reproduced", "caught"),
  "C13-b": ("parser's '::' expansion copies forward over itself", "C13.pton_plain.* / C13.pton_cidr.*; native replay reproduced", "first trial missed (no parser jobs under C13); jobs added, then caught"),
  "C14-a": ("a file whose last entry lacks its terminator: the load reports an error but merges anyway", "C14.conf_read: on any error code nothing is merged and no hook runs, for an arbitrary parser state", "first trial missed; strengthened (havoc of struct conf_parse on the error return), then caught"),
- "C14-b": ("a quoted string whose last byte before the end of the buffer is a backslash: the scan steps over the terminating NUL", "C14.parse_string.len8 (pointer checks)", "the trial timed out under load (1800 s); alone the job takes ~190 s - see DESIGN 10.4"),
+ "C14-b": ("a quoted string whose last byte before the end of the buffer is a backslash: the scan steps over the terminating NUL", "C14.parse_string.len8: the cursor stays inside the file buffer (never past the terminator)", "first trials timed out under load / were undecided (the unwinding assertion of the runaway loop masked the failed obligation); driver corrected, then caught"),
  "C15-a": ("a string list that shrinks to a prefix of its old value keeps the old value", "C15.string_list.len3", "caught"),
  "C15-b": ("an object that disappears from the file: 'present' is updated before the object case reads it, so its hook does not run", None, "not caught: needs conf_replace_value on object nodes, which does not get through symbolic execution (DESIGN 10.6)"),
  "C16-a": ("a string-list key written twice where the later value is a strict prefix of the earlier one (or empty): the earlier value survives", "C16.string_list.len3, C16.entry_template.t04/t06", "caught"),
